@@ -143,6 +143,28 @@ class HTMLTranslator(html4css1.HTMLTranslator):
     def visit_document(self, node: nodes.Node) -> None:
         pass
 
+    # docutils promotes a lone top-level section title to the title of the document
+    # (and a lone title just below it to its subtitle). The base class stores these
+    # apart from the body, for the head of a standalone page. A docstring is only a fragment
+    # of a page: present them in the body, as the section titles they were written as.
+    def _visit_document_title(self, node: nodes.Node) -> None:
+        self.section_level += 1
+        tagname = f'h{self.section_level + self.initial_header_level - 1}'
+        self.body.append(self.starttag(node, tagname, ''))
+        self.context.append(f'</{tagname}>\n')
+
+    def visit_title(self, node: nodes.Node) -> None:
+        if isinstance(node.parent, nodes.document):
+            self._visit_document_title(node)
+        else:
+            super().visit_title(node)
+
+    def visit_subtitle(self, node: nodes.Node) -> None:
+        if isinstance(node.parent, nodes.document):
+            self._visit_document_title(node)
+        else:
+            super().visit_subtitle(node)
+
     def depart_document(self, node: nodes.Node) -> None:
         pass
 
